@@ -480,14 +480,20 @@ out = open(outfile, "a")
 for c in calls:
     i = c["i"]
     tgt = c["target"]
-    if tgt[0] == "func": fn = getattr(M, tgt[1])
-    elif tgt[0] == "ctor": fn = getattr(M, tgt[1])
-    elif tgt[0] == "static": fn = getattr(getattr(M, tgt[1]), tgt[2])
-    else:
-        obj = getattr(M, tgt[1])(tgt[2]); fn = getattr(obj, tgt[3])
-    pos = [dec(e) for e in c["pos"]]
-    kw = None if c["kw"] is None else {k: dec(e) for k, e in c["kw"].items()}
     out.write(json.dumps({"i": i, "start": True}) + "\n"); out.flush()
+    try:
+        if tgt[0] == "func": fn = getattr(M, tgt[1])
+        elif tgt[0] == "ctor": fn = getattr(M, tgt[1])
+        elif tgt[0] == "static": fn = getattr(getattr(M, tgt[1]), tgt[2])
+        else:
+            obj = getattr(M, tgt[1])(tgt[2]); fn = getattr(obj, tgt[3])
+        pos = [dec(e) for e in c["pos"]]
+        kw = None if c["kw"] is None else {k: dec(e) for k, e in c["kw"].items()}
+    except BaseException as e:
+        out.write(json.dumps({"i": i, "r": "exc", "type": "setup:" + type(e).__name__,
+                              "msg": "building the receiver/arguments failed: " + str(e)[:160], "trace": ""}) + "\n")
+        out.flush()
+        continue
     L.subj_reset()
     try:
         r = fn(*pos) if kw is None else fn(*pos, **kw)
@@ -788,6 +794,11 @@ def check_library(ctx, drv, lib, thorough, r, dis_gen, dis_call, extra_calls=())
         groups = lib.groups()
         allcalls = []
         for key, group in groups.items():
+            for f in group:
+                n, nd, first = pygen.shape_of(f)
+                k = "set=%d %s n=%d ndef=%d first=%d" % (len(group), "method" if f.cls and not f.ctor else ("ctor" if f.ctor else "func"),
+                                                          n, nd, first)
+                DIST["overloads"][k] = DIST["overloads"].get(k, 0) + 1
             cs = gen_calls(group, thorough, r)
             cs += [c for k, c in extra_calls if k == key]
             for c in cs:
@@ -846,6 +857,12 @@ def check_library(ctx, drv, lib, thorough, r, dis_gen, dis_call, extra_calls=())
                              "%s: library must see %s and Python %s; got %s" % (sig, trace, json.dumps(value), json.dumps(res)[:300]),
                              replay)
                 continue
+            if E is not None:
+                form = ("empty" if not c["pos"] and not c["kw"] else "positional" if not c["kw"] else
+                        "keyword" if not c["pos"] else "mixed")
+                n_, nd_, _f = pygen.shape_of(E)
+                k = "set=%d n=%d ndef=%d: %d args %s" % (len(group), n_, nd_, len(S), form)
+                DIST["arities"][k] = DIST["arities"].get(k, 0) + 1
             if res["r"] == "crash":
                 ctx.fail("crash:%s:%s" % (lib.name, sig), "interpreter crashed (rc=%s) in %s" % (res.get("rc"), sig), replay)
                 continue
@@ -974,6 +991,9 @@ TEXT_LIBS = [
 ]
 
 
+DIST = {"overloads": {}, "arities": {}}
+
+
 def load_corpus():
     """corpus lines: JSON {"key": [cls|null, name], "pos": [...], "kw": {...}|null} run against the fixed library"""
     extra = []
@@ -990,6 +1010,8 @@ def load_corpus():
 
 def run(ctx):
     thorough = ctx.tier == "thorough"
+    DIST["overloads"].clear()
+    DIST["arities"].clear()
     ok = ctx.lean(MODULES, THEOREMS, extra_targets=("drv_pydispatch",))
     drv = common.Driver("drv_pydispatch")
     r = common.rng("c03")
@@ -1009,7 +1031,9 @@ def run(ctx):
     ]
     if not drv.available() or not ok:
         ctx.tie_broken("pydispatch-driver", "driver or proofs not built")
-    libs = [pygen.fixed_cxx("fixlib")]
+    libs = [pygen.fixed_cxx("fixlib"), pygen.grid_cxx(r, "gridlib")]
+    if thorough:
+        libs += [pygen.grid_cxx(r, "grid%d" % i) for i in range(3)]
     nrand = 24 if thorough else 3
     for i in range(nrand):
         libs.append(pygen.random_cxx(r, "rnd%d" % i, nfunc=10 if thorough else 8))
@@ -1038,6 +1062,11 @@ def run(ctx):
                 tie_emitted(ctx, drv, lib, calls_rec, texts, dis_gen, {})
         finally:
             common.rmtree(d)
+    ctx.note("overload_distribution (set size, kind, #params, #defaults, first default position -> overloads)",
+             dict(sorted(DIST["overloads"].items())))
+    ctx.note("arities_driven (set size, #params, #defaults: #supplied, form -> valid calls)", dict(sorted(DIST["arities"].items())))
+    alldef = sum(v for k, v in DIST["overloads"].items() if " first=0" in k and " n=0" not in k and not k.startswith("set=1 "))
+    ctx.note("all_defaulted_overloads_in_overload_sets", alldef)
     ctx.note("libraries_compiled", [l.name for l in libs])
     ctx.note("libraries_text_only", len(tlibs))
     ctx.note("disagreements_emitted_text", len(dis_gen))
